@@ -1100,6 +1100,8 @@ fn hyphen<'s>(input: &mut &'s str) -> PResult<Option<BoundSet>, SemverParseError
         let _ = literal("-").parse_next(input)?;
         let _ = space1(input)?;
         let upper = partial_version(input)?;
+        // a hyphen without a left side (` - 10`) is the bare partial (`10`)
+        let lower = lower.unwrap_or_else(|| upper.clone());
         let upper = match upper {
             // `1.2.3 - *` has no upper bound
             Partial {
@@ -1134,15 +1136,10 @@ fn hyphen<'s>(input: &mut &'s str) -> PResult<Option<BoundSet>, SemverParseError
             }),
             partial => Predicate::Including(partial.into()),
         };
-        let bounds = if let Some(lower) = lower {
-            BoundSet::new(
-                Bound::Lower(Predicate::Including(lower.into())),
-                Bound::Upper(upper),
-            )
-        } else {
-            BoundSet::at_most(upper)
-        };
-        Ok(bounds)
+        Ok(BoundSet::new(
+            Bound::Lower(Predicate::Including(lower.into())),
+            Bound::Upper(upper),
+        ))
     }
 
     parser
